@@ -190,7 +190,7 @@ fn check_write(name: &str, map: &mut Beatmap, good: &[u8], fault: WriteFault, at
         }
     };
     match fault {
-        WriteFault::Err(kind) | WriteFault::Flush(kind) => {
+        WriteFault::Err(kind) | WriteFault::Flush(kind) | WriteFault::ErrOnce(kind) => {
             let must_fail = matches!(fault, WriteFault::Flush(_)) || at < good.len();
             match res {
                 Err(e) if must_fail && e.kind() == kind => {}
@@ -280,6 +280,8 @@ fn write_side(tier: Tier, acc_out: &mut Acc) -> Value {
                 }
                 check_write(name, &mut map, &good, WriteFault::Err(kind), at, acc);
             }
+            // a writer that reports one hard error and then works again: the error must still surface
+            check_write(name, &mut map, &good, WriteFault::ErrOnce(ErrorKind::Other), at, acc);
             check_write(name, &mut map, &good, WriteFault::Zero, at, acc);
             acc.nontrivial(&(name, at));
         }
@@ -306,7 +308,7 @@ fn write_side(tier: Tier, acc_out: &mut Acc) -> Value {
     });
     let cur = std::mem::take(acc_out);
     *acc_out = cur.merge(a);
-    json!({"maps": files.len(), "all_output_offsets_up_to_bytes": dense, "faults": ["Err(kind) x5", "Ok(0)", "failing flush x5", "short writes 1/2/7/16", "Interrupted at every write call"]})
+    json!({"maps": files.len(), "all_output_offsets_up_to_bytes": dense, "faults": ["Err(kind) x5", "one-off Err then working again", "Ok(0)", "failing flush x5", "short writes 1/2/7/16", "Interrupted at every write call"]})
 }
 
 pub fn replay(case: &Value) -> Vec<Violation> {
@@ -350,7 +352,9 @@ pub fn replay(case: &Value) -> Vec<Violation> {
                 let f = case["fault"].as_str().unwrap_or("");
                 let num = |s: &str| s.chars().filter(|c| c.is_ascii_digit()).collect::<String>().parse::<usize>().unwrap_or(0);
                 let kind = KINDS.iter().copied().find(|k| f.contains(&kind_name(*k))).unwrap_or(ErrorKind::Other);
-                let fault = if f.starts_with("Err") {
+                let fault = if f.starts_with("ErrOnce") {
+                    WriteFault::ErrOnce(kind)
+                } else if f.starts_with("Err") {
                     WriteFault::Err(kind)
                 } else if f.starts_with("Zero") {
                     WriteFault::Zero
